@@ -31,11 +31,12 @@ func init() {
 		Rule: "E2 explicit-state BFS: a case is one transition (model state, operation), executed by replaying the shortest agreeing path on fresh real objects plus the operation, " +
 			"then comparing the operation's outcome and the full observation (own descriptor, value read, in, hasOwnProperty, propertyIsEnumerable, keys, getOwnPropertyNames, for-in, isFrozen/isSealed/isExtensible, getter/setter log) part by part with ref/objmodel. " +
 			"States are deduplicated on the model state (ordered property table + extensible flag of every object) and, in the order family and (thorough tier) the slot/exotic families, additionally on the implementation's raw property table and order list read by reflection (a key only, never an oracle). " +
-			"Families: samevalue (redefinition of read-only / non-configurable properties over +0, -0, NaN, 1, \"1\", two objects, ... and getter/setter identity: 8.12.9 uses SameValue), objectfn-args (non-object first argument of every 15.2.3 function), descshape (shape of the descriptor object / property map: own, inherited, getter-provided fields, non-objects; 8.10.5 and 15.2.3.7 read them with [[HasProperty]]/[[Get]]), forin-mutate (for-in whose body mutates once), order (one object, three names, put/delete histories to depth 5/6), slot (one name, all 729 descriptors, fixpoint), exotic (the slot machine on array/String/arguments/function/global receivers), chains (o -> p -> Object.prototype, names x y 0, depth 3; thorough adds depth 4 over a reduced alphabet). " +
+			"Families: samevalue (redefinition of read-only / non-configurable properties over +0, -0, NaN, 1, \"1\", two objects, ... and getter/setter identity: 8.12.9 uses SameValue), objectfn-args (non-object first argument of every 15.2.3 function), descshape (shape of the descriptor object / property map: own, inherited, getter-provided fields, non-objects; 8.10.5 and 15.2.3.7 read them with [[HasProperty]]/[[Get]]), forin-mutate (for-in whose body mutates once), creators (every syntax form / built-in that creates own properties x an obstacle of the same name on Object.prototype / Array.prototype: the own property must be defined regardless, equal to the clean twin, setter never called), order (one object, three names, put/delete histories to depth 5/6), slot (one name, all 729 descriptors, fixpoint), exotic (the slot machine on array/String/arguments/function/global receivers), chains (o -> p -> Object.prototype, names x y 0, depth 3; thorough adds depth 4 over a reduced alphabet). " +
 			"A transition is trivial only when its descriptor is contradictory (accessor field together with value/writable: TypeError before the object is touched).",
 		Families: []engine.Family{
 			// cheap families first: when the time budget runs out the largest search is the one cut short
 			{Name: "forin-mutate", Run: runForInMutate},
+			{Name: "creators", Run: runCreators},
 			{Name: "order", Run: runOrder},
 			{Name: "descshape", Run: runDescShape},
 			{Name: "objectfn-args", Run: runObjectFnArgs},
